@@ -1,7 +1,7 @@
 (* Props_C13.v — property C13 (hooks run once per record, in documented order, in the operation's
    transaction): ONLY theorem statements, each closed by [exact] of a lemma of C13_Proofs*.v.
    All are about [run], the function C13_Check.check_case evaluates on what the real gorm just did. *)
-From Verif Require Import Base C13_Model C13_Check C13_Proofs C13_Proofs2 C13_Proofs3 C13_Proofs4 C13_Proofs5 C13_Proofs6 C13_Vals C13_Vals2 C13_Vals3.
+From Verif Require Import Base C13_Model C13_Check C13_Proofs C13_Proofs2 C13_Proofs3 C13_Proofs4 C13_Proofs5 C13_Proofs6 C13_Vals C13_Vals2 C13_Vals3 C13_Vals4.
 Open Scope Z_scope.
 
 (* The hook log of every operation (Create, Save, Update(s), UpdateColumn(s), Delete, Find, First), for
@@ -99,6 +99,25 @@ Theorem c13_create_vals_ok : forall o, op_ok o -> create_shaped o -> vals_dom o 
 Proof. exact run_create_vals_ok. Qed.
 Print Assumptions c13_create_vals_ok.
 
+(* END TO END, Update / Updates (payload a map keyed by column or field name, or a struct; any model type,
+   Model shape and number of records, any set of SetColumn calls by BeforeSave / BeforeUpdate, any
+   transaction mode): when the operation returns no error, EVERY targeted row that existed holds the
+   LAST value a before-hook asked for ([of_type]: the hooks of the model type; one payload serves all rows) *)
+Theorem c13_update_values_stored : forall o, op_ok o -> o_kind o = OUpdate -> no_assoc_vals (o_assocs o) ->
+  s_err (run o) = [] ->
+  forall v, last_set o (of_type (o_ty o)) (hooks_of (s_tr (run o))) = Some v ->
+  forall r, In r (o_recs o) -> has_row TRecs (m_tag r) (o_seed o) = true ->
+    In (TRecs, m_tag r, v) (s_tbl (run o)).
+Proof. exact run_update_values. Qed.
+Print Assumptions c13_update_values_stored.
+
+(* ... which is the checker's clause [vals_ok] on the model's own run *)
+Theorem c13_update_vals_ok : forall o, op_ok o -> o_kind o = OUpdate -> no_assoc_vals (o_assocs o) ->
+  s_err (run o) = [] ->
+  vals_ok o (hooks_of (s_tr (run o))) (s_tbl (run o)) = true.
+Proof. exact run_update_vals_ok. Qed.
+Print Assumptions c13_update_vals_ok.
+
 (* ---- refuted at full strength (replayed on the real gorm: corpus/C13/kf_mixed_*.json) ---- *)
 
 (* hooks of one phase declared partly on T and partly on *T: for a single struct the pointer-receiver
@@ -128,10 +147,16 @@ Definition w_setcol : op :=
         (no_assocs (leaf_ty 12, leaf_ty 13, leaf_ty 14)) false TxDefault [] [1] KField 77 PVMapDb 0 [(TRecs, 1, 10)] no_opts.
 
 Example c13_values_update_instance :
-  s_err (run w_setcol) = []
+  op_ok w_setcol /\ no_assoc_vals (o_assocs w_setcol) /\ s_err (run w_setcol) = []
   /\ nth_error (hooks_of (s_tr (run w_setcol))) 1 = Some (BeforeUpdate, 1, 1)
   /\ s_tbl (run w_setcol) = [(TRecs, 1, 1001)].
-Proof. vm_compute. repeat split. Qed.
+Proof.
+  split; [|split; [repeat split | vm_compute; repeat split]].
+  split; [intro p; left; intros h _; destruct h; cbn; discriminate|]. cbn. split.
+  - unfold goodk, wf_shape. cbn. repeat split; try reflexivity; [eexists; reflexivity | discriminate].
+  - unfold assocs_ok, assoc_vals_ok. cbn. repeat split; try reflexivity; try lia; try discriminate;
+      left; intros h _; destruct h; cbn; discriminate.
+Qed.
 
 (* ---- non-vacuity: an operation with associations, two records, a failing invocation, in [op_ok] ---- *)
 Definition w_ok : op :=
